@@ -790,6 +790,9 @@ func (f *c09Fix) block() string {
 	if l2, _ := f.ids(); l2 > lid {
 		f.tr.Stats["seized:sweep"] += int(l2 - lid)
 	}
+	if !p {
+		f.seizureStats(lid)
+	}
 	fields := append([]string{i64(f.height)}, pre...)
 	fields = append(fields, "=>", outcome)
 	fields = append(fields, f.post(lid, aid)...)
@@ -816,6 +819,7 @@ func (f *c09Fix) liquidateMsg(id uint64, appID uint64, liqType uint64) {
 	f.tr.Count("msg:" + res)
 	if l2, _ := f.ids(); l2 > lid {
 		f.tr.Stats["seized:msg"] += int(l2 - lid)
+		f.seizureStats(lid)
 	}
 	fields := append(head, pre...)
 	fields = append(fields, "=>", res)
@@ -986,6 +990,34 @@ func (f *c09Fix) runSequence(nBlocks int) {
 		}
 		f.shapeStats()
 		f.block()
+	}
+}
+
+// statistics only: what kind of seizures the last transition performed (per generation, per auction type)
+func (f *c09Fix) seizureStats(preLid uint64) {
+	if f.gen == 2 {
+		for _, l := range f.app.NewliqKeeper.GetLockedVaults(f.ctx) {
+			if l.LockedVaultId > preLid {
+				ty := "english"
+				if l.AuctionType {
+					ty = "dutch"
+				}
+				f.tr.Count("seizure:gen2:" + l.InitiatorType + ":" + ty)
+			}
+		}
+		return
+	}
+	for _, l := range f.app.LiquidationKeeper.GetLockedVaults(f.ctx) {
+		if l.LockedVaultId > preLid {
+			kind := "vault"
+			if l.Kind != nil {
+				kind = "borrow"
+				if l.AmountIn.IsZero() {
+					kind = "borrow:whole-collateral"
+				}
+			}
+			f.tr.Count("seizure:gen1:" + kind)
+		}
 	}
 }
 
@@ -1170,6 +1202,7 @@ func (f *c09Fix) liquidateBorrowMsgV1(id uint64) {
 	f.tr.Count("msgb:" + res)
 	if l2, _ := f.ids(); l2 > lid {
 		f.tr.Stats["seized:msgb"] += int(l2 - lid)
+		f.seizureStats(lid)
 	}
 	fields := append([]string{u(id)}, pre...)
 	fields = append(fields, "=>", res)
@@ -1220,6 +1253,20 @@ func (f *c09Fix) externalMsg() {
 	}
 	col := f.collat[rng.Intn(len(f.collat))]
 	debt := f.debts[rng.Intn(len(f.debts))]
+	if rng.Chance(75) { // mostly an (app, debt asset) for which reserve funds exist
+		var have [][2]uint64
+		for _, a := range f.apps {
+			for _, d := range f.assets {
+				if rf, ok := f.app.NewliqKeeper.GetAppReserveFunds(f.ctx, a, d); ok && rf.TokenQuantity.Amount.IsPositive() {
+					have = append(have, [2]uint64{a, d})
+				}
+			}
+		}
+		if len(have) > 0 {
+			h := have[rng.Intn(len(have))]
+			appID, debt = h[0], h[1]
+		}
+	}
 	colID, debtID := col, debt
 	if rng.Chance(5) {
 		colID = uint64(rng.Range(60, 90)) // unknown asset id
